@@ -15,6 +15,7 @@ EXPLANATION = (
 EXPLANATION_ADDED = 'R2 also requires both samples of the timeout predicate to be taken after the last await; R3 also requires keepalive_interval to be applied before keepalive_timeout wherever both are set; (R6) the receive loop precedes the keepalive check in the biased select.'
 EXPLANATION_ADDED2 = " R5 also takes the keepalive arm's teardown flag."
 EXPLANATION = EXPLANATION + " Added while testing against seeded changes: " + EXPLANATION_ADDED + EXPLANATION_ADDED2
+EXPLANATION = EXPLANATION + ' Round 10: R3 also requires the keepalive setters to store their argument.'
 ASSUMPTIONS = ["tokio::time::Interval ticks every period; TimestampProvider::duration_since is monotone"]
 NOT_DECIDED = "the numeric bounds T and T+I, late pongs (timing)"
 THOROUGH_CONFIGS = ["mux-std-only"]
@@ -342,4 +343,4 @@ def check(facts, rep, tier, cfg):
                     "peer is cut off" % names)
     else:
         rep.bad("C16.R6", "receive-before-keepalive", "", "could not identify the receive-loop and keepalive arms of the task's select (found %s)" % names)
-
+    check_option_setters(facts, rep, crate, "C16.R3", ['keepalive_interval', 'keepalive_timeout'])
